@@ -193,10 +193,12 @@ Inductive obs :=
 | BCfg (own_id : bool) (max_peers : Z).   (* the cluster meta served: does it carry the cluster's id; its max_peer_count *)   (* per message of a stream, until the handler returned *)
 
 (* what the driver reads from etcd after every operation *)
-Record view := View { v_root : bool; v_time : bool; v_stores : list Z; v_regions : list Z; v_cid : option nat }.
+Record view := View { v_root : bool; v_time : bool; v_stores : list Z; v_regions : list Z; v_cid : option nat;
+                      v_rstore : list Z (* region ids in the region storage, from which regions are loaded at a restart *) }.
 
 (* run state: model state, next candidate number, ids seen so far (for renaming) *)
-Record rstate := R { rs : state; next_c : Z; seen : list Z; cfg : Z (* max_peer_count of the stored cluster meta *) }.
+Record rstate := R { rs : state; next_c : Z; seen : list Z; cfg : Z (* max_peer_count of the stored cluster meta *);
+                     rst : list Z (* region storage: the winner saves its region there after its transaction *) }.
 
 Fixpoint index_of (x : Z) (l : list Z) (n : nat) : option nat :=
   match l with [] => None | y :: r => if x =? y then Some n else index_of x r (S n) end.
@@ -208,7 +210,7 @@ Definition hid_of (h : option Z) : Z := match h with Some z => z | None => 0 end
 
 Definition the_cid : Z := 7.    (* the serving member's cluster id in the wrapper; requests carry 7 or something else *)
 Definition default_max_peers : Z := 3.   (* config default max-replicas, written by bootstrapCluster *)
-Definition rinit : rstate := R (init the_cid) 100 [] default_max_peers.
+Definition rinit : rstate := R (init the_cid) 100 [] default_max_peers [].
 
 Definition exempt (h : string) : bool :=
   existsb (String.eqb h) ["GetMembers"; "SyncMaxTS"; "GetDCLocationInfo"].
@@ -279,10 +281,10 @@ Definition mem_finish (r : rstate) (m : nat) (o : outcome) : rstate * obs :=
   | Some s1 =>
       match o with
       | Ok => match mids s1 m with
-              | Some v => let '(sn, k) := rename (seen r) v in (R s1 (next_c r + 1) sn (cfg r), BId k)
-              | None => (R s1 (next_c r + 1) (seen r) (cfg r), BBad)
+              | Some v => let '(sn, k) := rename (seen r) v in (R s1 (next_c r + 1) sn (cfg r) (rst r), BId k)
+              | None => (R s1 (next_c r + 1) (seen r) (cfg r) (rst r), BBad)
               end
-      | _ => (R s1 (next_c r + 1) (seen r) (cfg r), BEtcdErr)
+      | _ => (R s1 (next_c r + 1) (seen r) (cfg r) (rst r), BEtcdErr)
       end
   end.
 
@@ -290,7 +292,18 @@ Definition mem_finish (r : rstate) (m : nat) (o : outcome) : rstate * obs :=
 Definition lift (r : rstate) (x : option (state * obs)) : rstate * obs :=
   match x with
   | Some (s, b) =>
-      (R s (next_c r) (seen r) (if negb (is_some (root (e (rs r)))) && is_some (root (e s)) then default_max_peers else cfg r), b)
+      (R s (next_c r) (seen r) (if negb (is_some (root (e (rs r)))) && is_some (root (e s)) then default_max_peers else cfg r)
+         (* the request that won its transaction (answered OK, or an error from cluster.Start) has saved its region *)
+         (match b with
+          | BOk | BStartErr => match root (e s) with
+                               | Some w => match find (fun x => Nat.eqb (fst x) w) (reqs s) with
+                                           | Some (_, p) => [region_of p]
+                                           | None => rst r
+                                           end
+                               | None => rst r
+                               end
+          | _ => rst r
+          end), b)
   | None => (r, BBad)
   end.
 
@@ -321,11 +334,11 @@ Definition run_op1 (r : rstate) (o : op) : rstate * obs :=
       | Some s1 =>
           if mpend s1 m then
             match o with
-            | OMemBegin _ => (R s1 (next_c r) (seen r) (cfg r), BStarted)
-            | _ => mem_finish (R s1 (next_c r) (seen r) (cfg r)) m Ok
+            | OMemBegin _ => (R s1 (next_c r) (seen r) (cfg r) (rst r), BStarted)
+            | _ => mem_finish (R s1 (next_c r) (seen r) (cfg r) (rst r)) m Ok
             end
           else match mids s1 m with
-               | Some v => let '(sn, k) := rename (seen r) v in (R s1 (next_c r) sn (cfg r), BId k)
+               | Some v => let '(sn, k) := rename (seen r) v in (R s1 (next_c r) sn (cfg r) (rst r), BId k)
                | None => (r, BBad)
                end
       end
@@ -334,7 +347,7 @@ Definition run_op1 (r : rstate) (o : op) : rstate * obs :=
   | OPutConfig body =>
       if negb (running s) then (r, BNotBoot)
       else match put_config (scid s) body with
-           | Some mp => (R s (next_c r) (seen r) mp, BUnit)
+           | Some mp => (R s (next_c r) (seen r) mp (rst r), BUnit)
            | None => (r, BInvalidCfg)
            end
   | OGetConfig => (r, if running s then BCfg true (cfg r) else BNotBoot)
@@ -348,14 +361,14 @@ Definition run_op1 (r : rstate) (o : op) : rstate * obs :=
 Definition view_of (r : rstate) : view :=
   let x := e (rs r) in
   View (is_some (root x)) (is_some (btime x)) (map fst (stores x)) (map fst (regions x))
-       (match cid x with Some v => index_of v (seen r) 0 | None => None end).
+       (match cid x with Some v => index_of v (seen r) 0 | None => None end) (rst r).
 
 (* the cluster id in the view is renamed like the observations; a stored id nobody has returned yet
    (ErrApplied) is introduced into the renaming by the view itself *)
 Definition run_op (r : rstate) (o : op) : rstate * (obs * view) :=
   let '(r1, b) := run_op1 r o in
   let r2 := match cid (e (rs r1)) with
-            | Some v => R (rs r1) (next_c r1) (fst (rename (seen r1) v)) (cfg r1)
+            | Some v => R (rs r1) (next_c r1) (fst (rename (seen r1) v)) (cfg r1) (rst r1)
             | None => r1
             end in
   (r2, (b, view_of r2)).
@@ -387,7 +400,7 @@ Fixpoint obs_eqb (a b : obs) : bool :=
 Definition view_eqb (a b : view) : bool :=
   Bool.eqb (v_root a) (v_root b) && Bool.eqb (v_time a) (v_time b)
   && list_eqb Z.eqb (v_stores a) (v_stores b) && list_eqb Z.eqb (v_regions a) (v_regions b)
-  && opt_eqb Nat.eqb (v_cid a) (v_cid b).
+  && opt_eqb Nat.eqb (v_cid a) (v_cid b) && list_eqb Z.eqb (v_rstore a) (v_rstore b).
 Definition ov_eqb (a b : obs * view) : bool := obs_eqb (fst a) (fst b) && view_eqb (snd a) (snd b).
 
 Definition case := (list op * list (obs * view))%type.
@@ -467,6 +480,15 @@ Fixpoint mon (must_run : bool) (prev : view) (oks : list payload) (pend : list (
               end then Some "C20:stored-records-not-from-the-acknowledged-request"
       else if (1 <? Z.of_nat (List.length (v_stores v)))%Z || (1 <? Z.of_nat (List.length (v_regions v)))%Z
       then Some "C20:stored-records-from-several-requests"
+      (* 2b. the region storage (what a restart loads) only holds the region of the stored record: never the region of a
+             request that was refused *)
+      else if negb (forallb (fun x => existsb (Z.eqb x) (v_regions v)) (v_rstore v))
+      then Some "C20:region-storage-holds-region-of-a-refused-request"
+      (* 2c. a Bootstrap that is answered with an error other than a storage / start failure has not bootstrapped the cluster *)
+      else if match o, b with
+              | OBoot _ _ _, BBad | OFinish _ _, BBad | OFinishStartFail _, BBad => negb (records_same prev v)
+              | _, _ => false
+              end then Some "C20:bootstrap-answered-error-but-bootstrapped"
       (* 3. a refused request changes nothing *)
       else if match b with
               | BAlready | BInvalid _ | BConflict | BMismatch => negb (records_same prev v)
@@ -516,7 +538,7 @@ Fixpoint mon (must_run : bool) (prev : view) (oks : list payload) (pend : list (
   end.
 
 Definition monitor (c : case) : option string :=
-  mon false (View false false [] [] None) [] [] [] (fst c) (snd c).
+  mon false (View false false [] [] None []) [] [] [] (fst c) (snd c).
 
 Fixpoint monitor_fails_from (n : nat) (cs : list case) : list (nat * string) :=
   match cs with
